@@ -631,6 +631,18 @@ func (x *c07Exec) project(rec verifkit.Rec) {
 	rec["dadds"], rec["dkeys"] = dadds, dkeys
 }
 
+// c07TempDir prefers a memory file system: the bolt file is synced after every transaction and
+// durability against a power failure is not the subject here.
+func c07TempDir(t *testing.T) string {
+	if st, err := os.Stat("/dev/shm"); err == nil && st.IsDir() {
+		if d, err := os.MkdirTemp("/dev/shm", "verif-c07-"); err == nil {
+			t.Cleanup(func() { os.RemoveAll(d) })
+			return d
+		}
+	}
+	return t.TempDir()
+}
+
 func c07Ints(s string) []int {
 	var out []int
 	for _, f := range strings.Split(s, ",") {
@@ -655,7 +667,7 @@ func TestVerifC07CircuitMap(t *testing.T) {
 	if len(files) == 0 {
 		t.Fatalf("no schedules in %q", dir)
 	}
-	tmp := t.TempDir()
+	tmp := c07TempDir(t)
 	for fi, f := range files {
 		evs, err := verifkit.ReadNDJSONInto[c07Event](f)
 		if err != nil {
@@ -686,7 +698,7 @@ func TestVerifC07Random(t *testing.T) {
 	steps := verifkit.EnvInt("VERIF_C07_STEPS", 80)
 	out := verifkit.MustWriter(verifkit.Env("VERIF_OUT", ".") + "/trace.ndjson")
 	defer out.Close()
-	tmp := t.TempDir()
+	tmp := c07TempDir(t)
 
 	for run := 0; run < runs; run++ {
 		rng := rand.New(rand.NewSource(verifkit.Seed()*100003 + int64(run)))
